@@ -64,6 +64,10 @@ Lemma address_families :
 Proof. cbn. repeat split; try (intros H; discriminate H); auto. Qed.
 
 (** ** validateToken — no hypothesis about the oracles is needed *)
+(** DecodeToken refuses a Retry record whose connection IDs do not fit a protocol.ConnectionID *)
+Definition cids_ok (r : rec) : bool :=
+  negb (r_isRetry r && ((sl_MaxConnIDLen <? zlen (r_odcid r)) || (sl_MaxConnIDLen <? zlen (r_rscid r)))).
+
 Definition lifetime (t : tok) (maxTokenAge maxRetryAge : Z) : Z :=
   if t_isRetry t then maxRetryAge else maxTokenAge.
 
@@ -138,7 +142,8 @@ Section TokenTheory.
   Hypothesis OC : oracles_correct prot_seal prot_open marshal unmarshal sealed.
 
   (** *** Round trip *)
-  Lemma decode_issued k enc r : issued k enc r -> decode k enc = DTok (tok_of_rec r).
+  Lemma decode_issued k enc r :
+    issued k enc r -> decode k enc = if cids_ok r then DTok (tok_of_rec r) else DErr.
   Proof.
     intros (nonce & Hl & Hs & ->). unfold decode, decodeToken, protDecode, protNewToken.
     assert (Hz : zlen nonce = tokenNonceSize).
@@ -149,19 +154,23 @@ Section TokenTheory.
     destruct (Z.eqb_spec (32 + zlen (prot_seal k nonce (marshal r))) 0) as [E|_]; [lia|].
     destruct (Z.ltb_spec (32 + zlen (prot_seal k nonce (marshal r))) 32) as [E|_]; [lia|].
     rewrite <- Hl, firstn_app_len, skipn_app_len, (open_seal _ _ _ _ _ OC _ _ _ Hs), (unmarshal_marshal _ _ _ _ _ OC).
-    reflexivity.
+    cbn [zlen length Z.of_nat Z.eqb]. unfold cids_ok.
+    destruct (r_isRetry r && ((sl_MaxConnIDLen <? zlen (r_odcid r)) || (sl_MaxConnIDLen <? zlen (r_rscid r)))); reflexivity.
   Qed.
 
   (** a Retry token carries back exactly the connection IDs (and time, address) it was issued with *)
   Theorem retry_token_roundtrip k nonce a0 odcid rscid ts :
     length nonce = nonceLen ->
+    zlen odcid <= 20 -> zlen rscid <= 20 ->      (* protocol.ConnectionID holds at most 20 bytes *)
     sealed k nonce (marshal (Rec true (encodeRemoteAddr a0) ts 0 odcid rscid)) ->
     decode k (newRetryToken (prot_seal k) marshal nonce a0 odcid rscid ts)
     = DTok (Tok true ts (encodeRemoteAddr a0) odcid rscid 0).
   Proof.
-    intros Hl Hs. unfold newRetryToken.
-    rewrite (decode_issued k _ (Rec true (encodeRemoteAddr a0) ts 0 odcid rscid)); [reflexivity|].
-    exists nonce. auto.
+    intros Hl Ho Hr Hs. unfold newRetryToken.
+    rewrite (decode_issued k _ (Rec true (encodeRemoteAddr a0) ts 0 odcid rscid)); [|exists nonce; auto].
+    unfold cids_ok. cbn [r_isRetry r_odcid r_rscid andb].
+    assert (M : sl_MaxConnIDLen = 20) by reflexivity. rewrite M.
+    destruct (Z.ltb_spec 20 (zlen odcid)); [lia|]. destruct (Z.ltb_spec 20 (zlen rscid)); [lia|]. reflexivity.
   Qed.
 
   Theorem new_token_roundtrip k nonce a0 rtt_us ts :
@@ -182,7 +191,8 @@ Section TokenTheory.
     (validateToken (Some t) a now maxTokenAge maxRetryAge = true <->
      same_addr a a0 /\ now - r_ts r <= (if r_isRetry r then maxRetryAge else maxTokenAge)).
   Proof.
-    intros Hi Ha Hd. rewrite (decode_issued _ _ _ Hi) in Hd. inversion Hd; subst t. clear Hd.
+    intros Hi Ha Hd. rewrite (decode_issued _ _ _ Hi) in Hd.
+    destruct (cids_ok r); [|discriminate]. inversion Hd; subst t. clear Hd.
     rewrite validateToken_spec. unfold lifetime, tok_of_rec.
     destruct (r_isRetry r); cbn [t_addr t_sent t_isRetry]; rewrite Ha, encode_same_addr; tauto.
   Qed.
@@ -205,7 +215,8 @@ Section TokenTheory.
     unfold decode, decodeToken. destruct (Z.eqb_spec (zlen enc) 0) as [E|E].
     - intros _. apply zlen_0. exact E.
     - destruct (protDecode _ _); [|discriminate].
-      destruct (unmarshal l) as [[r rest]|]; [|discriminate]. destruct (zlen rest =? 0); discriminate.
+      destruct (unmarshal l) as [[r rest]|]; [|discriminate]. destruct (zlen rest =? 0); [|discriminate].
+      destruct (r_isRetry r && _); discriminate.
   Qed.
 
   Section Ideal.
@@ -222,6 +233,7 @@ Section TokenTheory.
     destruct (prot_open k (firstn nonceLen enc) (skipn nonceLen enc)) as [d|] eqn:Eo; [|discriminate].
     destruct (unmarshal d) as [[r rest]|] eqn:Eu; [|discriminate].
     destruct (Z.eqb_spec (zlen rest) 0) as [Er|Er]; [|discriminate].
+    destruct (r_isRetry r && ((sl_MaxConnIDLen <? zlen (r_odcid r)) || (sl_MaxConnIDLen <? zlen (r_rscid r)))); [discriminate|].
     intros H. inversion H; subst t. apply zlen_0 in Er. subst rest.
     destruct (int_ctxt _ _ _ PI _ _ _ _ Eo) as [Hsl Hc].
     exists d, r. split; [|auto].
